@@ -18,7 +18,7 @@ RULE = (
     "Fault enumeration (E1/E2) on one function evaluation combined with / followed by one gradient evaluation: EVERY subset "
     "of the R + R*P cells (realization, unperturbed | perturbation k) fails, for (R,P) up to (3,3) [quick: up to (3,2)], x the "
     "column carrying the NaN (objective 0 / objective 1 / constraint 0) x every realization_min_success 0..R x every "
-    "perturbation_min_success 1..P x realization weights {1..R, with a zero} x filter {none, sort, cvar} x estimator map {mean, stddev on objective 1, stddev on objective 0} x "
+    "perturbation_min_success 1..P x realization weights {1..R, with a zero, one dominant weight next to 1e-9} x filter {none, sort, cvar} x estimator map {mean, stddev on objective 1, stddev on objective 0} x "
     "per-realization / merged gradient estimation x combined / split evaluation. Oracle: failed flags formula; functions/gradients None iff successes < threshold and the "
     "same evaluation inside an optimizer step ends with TOO_FEW_REALIZATIONS; values equal the reference on the survivors, "
     "the REAL code on the reduced ensemble (differential, for functions and - when the survivors lost no perturbation - for gradients, merged included), and the least-squares fit over the surviving perturbations for per-realization gradients. "
@@ -92,7 +92,11 @@ def judge(case: dict[str, Any], shared: dict[Any, Any] | None = None) -> Judgeme
     V = shape_v(P)
     merge = bool(case.get("merge"))
     wkind = case.get("weights", "ramp")
-    full_weights = [float(i + 1) for i in range(R)] if wkind == "ramp" else [0.0 if i == 0 else float(i) for i in range(R)]
+    if wkind == "tiny":
+        # one realization carries practically all the weight: when it fails the others are renormalized all the same
+        full_weights = [1.0] + [1e-9] * (R - 1)
+    else:
+        full_weights = [float(i + 1) for i in range(R)] if wkind == "ramp" else [0.0 if i == 0 else float(i) for i in range(R)]
     config = validate(build_config(R, P, rms, pms, flt, emap, weights=full_weights, merge=merge))
     base_fn = c02.ensemble(R, V, "distinct", case["seed"])
     # objective 0 stays affine (the filters rank on it); objective 1 and the constraint get a quadratic term so that a
@@ -341,7 +345,7 @@ def run_shard(shard: dict[str, Any]) -> core.ShardResult:
                                     continue
                                 if tier == "quick" and R * (P + 1) >= 9 and (nan_col == 1 or (emap == 1 and flt == "cvar")):
                                     continue  # quick: thin the largest shape (full in thorough)
-                                for wkind in (("ramp", "zero") if R > 1 and (tier == "thorough" or (nan_col == 0 and flt == "none")) else ("ramp",)):
+                                for wkind in (("ramp", "zero", "tiny") if R > 1 and (tier == "thorough" or (nan_col == 0 and flt == "none")) else ("ramp",)):
                                   case = {"R": R, "P": P, "subset": subset, "nan_col": nan_col, "rms": rms, "pms": pms, "weights": wkind,
                                         "filter": flt, "emap": emap, "merge": merge, "split": split, "seed": shard["seed"],
                                         "step": nan_col == 0, "differential": not split}
